@@ -40,7 +40,11 @@ def located_error(
     try:
         message = str(original_error.message)  # type: ignore
     except AttributeError:
-        message = str(original_error)
+        try:
+            message = str(original_error)
+        except Exception:  # noqa: BLE001
+            # an exception whose __str__ fails must still become a located error
+            message = f"<{original_error.__class__.__name__}>"
     try:
         source = original_error.source  # type: ignore
         if not is_source(source):
